@@ -98,7 +98,18 @@ def do_dump(dbpath, cfg, mode, batch):
     if cfg['pk']:
         for r in st.desc['resources']:
             r['schema']['primaryKey'] = ['k']
+    if cfg.get('pk_other'):
+        # the schema's primary key is another column (unique per dumped row); the table spec names the update key
+        for r_, rows_ in zip(st.desc['resources'], st.rows):
+            r_['schema']['fields'].append({'name': 'u', 'type': 'string', 'format': 'default'})
+            r_['schema']['primaryKey'] = ['u']
+            for row in rows_:
+                row['u'] = '%s/%s/%s' % (row['k'], row['v'], mode)
+        for row in rows:
+            row['u'] = '%s/%s/%s' % (row['k'], row['v'], mode)
     tbl = {'resource-name': 'r', 'mode': mode}
+    if cfg.get('pk_other') and mode == 'update':
+        tbl['update_keys'] = ['k']
     if (mode == 'update' or cfg.get('keys_always')) and not cfg['pk']:
         tbl['update_keys'] = ['k']          # only mode 'update' may honour them
     tables = {'t': tbl}
@@ -148,7 +159,15 @@ def explore(task):
                             f.write(blob)
                     h2 = hist + [[mode, bi]]
                     label = 'config %s, history %s' % (cj(cfg), ' ; '.join('%s%s' % (m, BATCHES[b]) for m, b in h2))
-                    exp = model_apply(table, mode, [mkrow(k, v, cfg['cols']) for k, v in batch], cfg['pk'])
+                    mrows = [mkrow(k, v, cfg['cols']) for k, v in batch]
+                    if cfg.get('pk_other'):
+                        for row in mrows:
+                            row['u'] = '%s/%s/%s' % (row['k'], row['v'], mode)
+                    exp = model_apply(table, mode, mrows, cfg['pk'])
+                    if cfg.get('pk_other') and exp != 'rejected':
+                        us = [t['u'] for t in exp[0]]
+                        if len(set(us)) != len(us):
+                            exp = 'rejected'          # the database enforces the schema's primary key
                     kind, got, inrows = do_dump(db, cfg, mode, batch)
                     out['n'] += 1
                     out['transitions'] += 1
@@ -257,6 +276,7 @@ def configs(tier):
         out = [c for c in out if (c['cols'] != ['arr']) and not (c['batch_size'] == 2 and c['bloom'] is False)]
     for bloom in (True, False):
         out.append({'pk': False, 'batch_size': 1000, 'bloom': bloom, 'cols': ['numkey']})
+        out.append({'pk': False, 'batch_size': 1000, 'bloom': bloom, 'cols': [], 'pk_other': True})
     out.append({'pk': False, 'batch_size': 1000, 'bloom': True, 'cols': [], 'keys_always': True})
     out.append({'pk': False, 'batch_size': 1, 'bloom': False, 'cols': ['arr', 'obj'], 'keys_always': True})
     # one step writing two tables with the same column names
